@@ -23,13 +23,16 @@ META = dict(
     text="TLC enumerates, for CreateTopic/DeleteTopic/CreatePartitions/AlterPartitionReassignments, every Admin.Retry.Max in 0..3, "
          "every initial controller among broker ids {0,1,2} (id 0 is an ordinary broker) and every script of per-attempt broker behaviour (acknowledge, NOT_CONTROLLER with the controller "
          "moving to either other broker, every KError code in place of success, answer without the topic entry, dropped connection; "
-         "0..Max+1 controller moves) for every Kafka release that changes the request version; and for DeleteRecords/"
+         "0..Max+1 controller moves; a move may come with an election during which the next 1 or 2 metadata answers name NO controller, "
+         "and the client may start with its cached controller wiped) for every Kafka release that changes the request version; and for DeleteRecords/"
          "DescribeConsumerGroups/ListConsumerGroupOffsets/DeleteConsumerGroup every spread of 3 partitions/groups over 3 brokers with "
          "every per-item verdict and one broker failing. Each case is executed on the real admin.go/client.go; the brokers log who "
          "received which request (type, version, items), the driver logs the returned value; TLC decides the clauses "
          "(routing to the then-current controller / owner, retry exactly on NOT_CONTROLLER, success iff acknowledged, errors "
          "returned with the broker's code, request version supported by the configured release).",
-    note="bounded: 3 brokers, Retry.Max <= 3, 3 items; metadata and coordinator look-ups always succeed and tell the truth; "
+    note="bounded: 3 brokers, Retry.Max <= 3, 3 items; metadata and coordinator look-ups always succeed and tell the truth (a metadata "
+         "answer may truthfully name no controller during an election; giving up with ErrControllerNotAvailable is excused only when the "
+         "look-up of the NEW attempt found nobody, which is what the code does when an election outlasts two metadata answers); "
          "retrying after a dropped connection is tolerated (the statement's 'other error' is read as an error answer); "
          "the three defects this check found on the pinned tree (Retry.Max=0 reported success without sending; "
          "AlterPartitionReassignments never retried NOT_CONTROLLER and treated top-level UNKNOWN(-1) as success) are fixed in /repo "
@@ -48,6 +51,7 @@ def gen(ctx):
     thorough = ctx.tier == "thorough"
     runs = [
         ("Admin", "Admin.ref.thorough.cfg" if thorough else "Admin.ref.cfg", "ref", False),
+        ("Admin", "Admin.none.thorough.cfg" if thorough else "Admin.none.cfg", "none", False),
         ("Admin", "Admin.codes.cfg", "codes", False),
         ("Admin", "Admin.legacy.cfg", "legacy", False),
         ("AdminSpread", "AdminSpread.thorough.cfg" if thorough else "AdminSpread.cfg", "spread", False),
@@ -173,7 +177,10 @@ def run(ctx):
                        "legacy variant modulo the three fixed causes; a mutant model without controller refresh is rejected)",
     }
     return vlib.finish(ctx, "model_checking", cov, viols,
-                       ["metadata and FindCoordinator look-ups succeed and report the true controller / leaders / coordinators",
+                       ["metadata and FindCoordinator look-ups succeed and report the true controller / leaders / coordinators (or, during a scripted "
+                        "election, no controller for 1 or 2 consecutive answers)",
+                        "an operation that ends with retry budget left is excused only if the controller look-up of the new attempt (the second "
+                        "metadata answer after a NOT_CONTROLLER, the first one at the start) named nobody; the code in /repo gives up there",
                         "the retry budget is read weakly: success is demanded only when an attempt with index <= Admin.Retry.Max is acknowledged "
                         "(both 'Max attempts' and 'Max retries' implementations satisfy the clauses)",
                         "a retry after a dropped connection is tolerated; after an error answer or an incomplete answer it is not",
